@@ -19,6 +19,7 @@ impl<U> Error<U> {
         match self {
             Error::Io(io) => Error::Io(io),
             Error::InvalidCompressionType => Error::InvalidCompressionType,
+            Error::InvalidFormatVersion => Error::InvalidFormatVersion,
             _ => panic!("cannot convert a merge error"),
         }
     }
